@@ -280,6 +280,37 @@ Definition get_txn_status (cache : list (ts * cstatus)) (txn : ts) (ans : cstatu
   | None => let v := cview ans in (v, if cacheable v then (txn, v) :: cache else cache, true)
   end.
 
+(* ------------------------------------------------------------------ a pushed primary lock *)
+(* a command that changes nothing: a commit request the store refuses (commit ts below the lock's min_commit_ts, lock gone) *)
+Definition is_noop (st : store) (c : cmd) : bool :=
+  match c with Commit _ _ _ => resp_has_error (snd (step st c)) | _ => false end.
+Definition safe_step_e (st : store) (c : cmd) (k : key) (t : ts) : bool := is_noop st c || safe_step st c k t.
+Fixpoint stable_suffix_e (st : store) (k : key) (t : ts) (b : list cmd) : bool :=
+  match b with
+  | [] => true
+  | c :: r => safe_step_e st c k t && stable_suffix_e (fst (step st c)) k t r
+  end.
+(* the primary kp of transaction s holds s's prewrite lock with min_commit_ts above t: what a CheckTxnStatus answer
+   MinCommitTSPushed for caller ts t establishes *)
+Definition pushed (st : store) (kp : key) (s t : ts) : bool :=
+  match lock_of st kp with
+  | Some lp => (l_start lp =? s) && negb (is_pess lp) && (t <? l_min_commit lp)
+  | None => false
+  end.
+(* C04 "secondaries / resolvers only after the primary is committed": a (start, commit) pair of s is carried either by a
+   commit request that names the primary, or once the primary holds the commit record with that commit ts *)
+Definition names_primary (kp : key) (c : cmd) : bool :=
+  match c with Commit ks _ _ => existsb (N.eqb kp) ks | _ => false end.
+Definition pf_ok (kp : key) (s : ts) (st : store) (c : cmd) : bool :=
+  forallb (fun p => negb (fst p =? s) || names_primary kp c || record_is st kp s (DCommitted (snd p))) (cmd_pairs c).
+
+(* the lock met at read time: as [met_rule], or it belongs to the transaction whose primary was pushed *)
+Definition met_rule_p (st : store) (k : key) (s t : ts) (P : list (ts * ts)) : bool :=
+  match lock_of st k with
+  | Some l => negb (data_lock l) || (t <? l_start l) || pairs_above t (l_start l) P || (l_start l =? s)
+  | None => true
+  end.
+
 (* ------------------------------------------------------------------ external consistency: event order *)
 Inductive ev :=
 | EvTso (t : ts)                   (* the oracle issued t *)
